@@ -238,7 +238,9 @@ func entryParser(rc *RunCtx) *Violation {
 	var p PH
 	simrt.ShuffleMaps = true
 	pn := catch(func() { p = w.build(o) })
-	simrt.ShuffleMaps = false
+	// in half of the runs the order of every map iteration during lexing and parsing stays under
+	// the tape too (Go randomises it; no result may depend on it)
+	simrt.ShuffleMaps = simrt.Choose(2) == 1
 	if pn != "" {
 		return &Violation{Signature: "entry/" + w.name + "/build-panic", Detail: pn}
 	}
